@@ -201,8 +201,93 @@ pub fn reference(shape: (usize, usize), a: &Ix, b: &Option<Ix>) -> Expect {
   }
 }
 
+pub const INDEX_KINDS: [&str; 12] = ["u8", "u16", "u32", "u64", "u128", "i8", "i16", "i32", "i64", "i128", "f32", "f64"];
+
+impl C03 {
+  pub fn main_units(&self) -> u64 { (self.n_exprs() + CHUNK - 1) / CHUNK }
+  pub fn kind_units(&self) -> u64 { (shapes(self.tier).len() * INDEX_KINDS.len()) as u64 }
+
+  /// index values of every numeric kind: the same read with the index held in a typed variable (scalar / vector), written as a
+  /// suffixed literal, and spelled out as a plain literal must give the identical outcome (the plain spelling is judged by the main family)
+  fn index_kind_unit(&mut self, u: u64, out: &mut WorkerOut) {
+    let shp = shapes(self.tier);
+    let shape = shp[(u as usize) / INDEX_KINDS.len()];
+    let ik = INDEX_KINDS[(u as usize) % INDEX_KINDS.len()];
+    let (r, c) = (shape.0 as i64, shape.1 as i64);
+    let n = r * c;
+    let sc = storage_class(shape);
+    // (plain text, typed-variable text, definitions needed)
+    let mut defs: Vec<String> = vec![];
+    let mut scal = |k: i64, defs: &mut Vec<String>| -> (String, String, String) {
+      let name = format!("s{}", (b'a' + k as u8) as char);
+      let d = format!("{}<{}> := {}", name, ik, k);
+      if !defs.contains(&d) { defs.push(d); }
+      let suffixed = if ik.starts_with('f') { format!("{}.0{}", k, ik) } else { format!("{}{}", k, ik) };
+      (k.to_string(), name, suffixed)
+    };
+    let mut vecs = |v: &[i64], defs: &mut Vec<String>| -> (String, String, String) {
+      let name = format!("v{}", v.iter().map(|x| ((b'a' + *x as u8) as char).to_string()).collect::<Vec<_>>().join(""));
+      let plain = format!("[{}]", v.iter().map(|x| x.to_string()).collect::<Vec<_>>().join(" "));
+      let d = format!("{}<[{}]> := {}", name, ik, plain);
+      if !defs.contains(&d) { defs.push(d); }
+      (plain.clone(), name, plain)
+    };
+    let mut reads: Vec<(String, String, String, String)> = vec![]; // (forms, plain, typed variable, suffixed)
+    let mut ks: Vec<i64> = vec![0, 1, 2, n, n + 1]; ks.dedup();
+    for k in &ks { let (p, t, x) = scal(*k, &mut defs); reads.push(("scalar".into(), p, t, x)); }
+    let mut vs: Vec<Vec<i64>> = vec![vec![1, 2], vec![2, 1], vec![n, 1], vec![1, n + 1], vec![1, 0]];
+    if n >= 3 { vs.push(vec![1, 2, 3]); vs.push(vec![3, 1, 2]); vs.push(vec![1, n + 1, 2]); }
+    for v in &vs { let (p, t, x) = vecs(v, &mut defs); reads.push(("vector".into(), p, t, x)); }
+    let mut rs: Vec<i64> = vec![0, 1, r, r + 1]; rs.dedup();
+    let mut cs: Vec<i64> = vec![0, 1, c, c + 1]; cs.dedup();
+    for i in &rs { for j in &cs {
+      let (pi, ti, xi) = scal(*i, &mut defs); let (pj, tj, xj) = scal(*j, &mut defs);
+      reads.push(("scalar,scalar".into(), format!("{},{}", pi, pj), format!("{},{}", ti, tj), format!("{},{}", xi, xj)));
+      reads.push(("scalar,scalar(mixed)".into(), format!("{},{}", pi, pj), format!("{},{}", ti, pj), format!("{},{}", pi, xj)));
+    } }
+    let ivs: Vec<Vec<i64>> = vec![vec![1, r], vec![r, 1], vec![1, r + 1]];
+    let jvs: Vec<Vec<i64>> = vec![vec![1, c], vec![c, 1], vec![1, c + 1]];
+    for iv in &ivs {
+      let (pi, ti, _) = vecs(iv, &mut defs);
+      for j in [1, c] { let (pj, tj, xj) = scal(j, &mut defs); reads.push(("vector,scalar".into(), format!("{},{}", pi, pj), format!("{},{}", ti, tj), format!("{},{}", pi, xj))); }
+      reads.push(("vector,all".into(), format!("{},:", pi), format!("{},:", ti), format!("{},:", pi)));
+      for jv in &jvs { let (pj, tj, _) = vecs(jv, &mut defs); reads.push(("vector,vector".into(), format!("{},{}", pi, pj), format!("{},{}", ti, tj), format!("{},{}", ti, pj))); }
+    }
+    for jv in &jvs {
+      let (pj, tj, _) = vecs(jv, &mut defs);
+      for i in [1, r] { let (pi, ti, xi) = scal(i, &mut defs); reads.push(("scalar,vector".into(), format!("{},{}", pi, pj), format!("{},{}", ti, tj), format!("{},{}", xi, pj))); }
+      reads.push(("all,vector".into(), format!(":,{}", pj), format!(":,{}", tj), format!(":,{}", pj)));
+    }
+    for xk in ["f64", "u8"] {
+      let vals = matrix_values(xk, shape.0, shape.1);
+      let def = define_matrix("x", xk, &vals, shape.0, shape.1);
+      let mut s = Session::new();
+      if !s.run(&def).is_value() { continue; }
+      let cx = s.get("x");
+      let mut defined = std::collections::BTreeSet::new();
+      for d in &defs { if s.run(d).is_value() { defined.insert(d.split('<').next().unwrap().to_string()); } else { out.count("typed_index_define_rejected"); } }
+      for (n, (forms, plain, typed, suffixed)) in reads.iter().enumerate() {
+        let o = s.run(&format!("p{} := x[{}]", n, plain));
+        for (spelling, text) in [("typed-variable", typed), ("suffixed-literal", suffixed)] {
+          if text == plain { continue; }
+          if text.split(',').any(|t| (t.starts_with('s') || t.starts_with('v')) && !defined.contains(t)) { continue; }
+          out.evaluations += 1;
+          let ot = s.run(&format!("t{}{} := x[{}]", n, &spelling[..1], text));
+          // `1i8` is read as an imaginary literal followed by `8` in this grammar: a spelling that does not parse is not an index
+          if matches!(ot, Outcome::ParseError) { out.evaluations -= 1; out.count("suffixed_spelling_not_in_the_grammar"); continue; }
+          let same = match (&o, &ot) { (Outcome::Value(x), Outcome::Value(y)) => x == y, (Outcome::Value(_), _) | (_, Outcome::Value(_)) => false, (_, Outcome::Panic(_)) => false, _ => true };
+          if same { out.nontrivial += 1; out.count(&format!("index_kind_agrees:{}", spelling)); out.set("index_kinds_reached", &format!("{}|{}|{}", ik, spelling, forms)); }
+          else { out.fail(format!("C03|index-kind-differs|{}:{}:{}@{}", ik, spelling, forms, sc), format!("{}; {}; r := x[{}]", def, defs.iter().filter(|d| text.split(',').any(|t| d.starts_with(&format!("{}<", t)))).cloned().collect::<Vec<_>>().join("; "), text), format!("with the plain literal index x[{}] gives {}, with the {} index {}", plain, o.short(), ik, ot.short())); }
+        }
+      }
+      if s.get("x") != cx { out.fail(format!("C03|source-modified|{}@{}", xk, sc), format!("{}; typed-index reads ({})", def, ik), format!("x is now {:?}", s.get("x").map(|c| c.short()))); }
+    }
+  }
+}
+
 impl UnitRunner for C03 {
   fn unit(&mut self, _payload: &str, unit: u64, out: &mut WorkerOut) {
+    if unit >= self.main_units() { return self.index_kind_unit(unit - self.main_units(), out); }
     let lo = unit * CHUNK;
     let hi = (lo + CHUNK).min(self.n_exprs());
     let exprs: Vec<(Ix, Option<Ix>)> = (lo..hi).map(|e| self.expr(e)).collect();
@@ -311,10 +396,14 @@ impl Check for C03 {
     rep.assumptions = vec![
       "negative and fractional indices, x[:,:] on unsupported storage, index matrices (2-D index arguments), empty selections and degenerate ranges are not judged".into(),
       "an in-range form pair that is rejected for every kind and every value on a storage class counts as unsupported (outside the statement); rejected only for some is a violation".into(),
+      "index values of kind u8..i128, f32, f64 (typed scalar / vector variables and suffixed literals, 1-D and 2-D forms, every shape, boundary and out-of-range positions) are compared with the plain literal spelling".into(),
       "result orientation of one-dimensional vector/range/mask reads is not fixed by the documentation: any vector orientation with the right elements in order is accepted".into(),
     ];
     rep.cov("bounds", json!({"index_expressions": n, "shapes": shapes(tier), "chunk": CHUNK}));
-    drive_ranges(cfg, rep, range_jobs("", units, 1));
+    drive_ranges(cfg, rep, range_jobs("", units + self.kind_units(), 1));
+    let ikr = rep.out.sets.get("index_kinds_reached").map(|s| s.len()).unwrap_or(0);
+    if ikr < 100 { rep.vacuity.push(format!("only {} (index kind, spelling, form) combinations agreed with a value or an error", ikr)); }
+    rep.cov("index_kind_family", json!({"kinds": INDEX_KINDS, "units": self.kind_units(), "oracle": "typed-variable and suffixed-literal index values must give the outcome of the plain literal index (judged by the main family)"}));
     // in-range-rejected: keep only where the form pair is supported on that storage class
     let supported = rep.out.sets.get("supported").cloned().unwrap_or_default();
     let before = rep.out.failures.len();
